@@ -22,6 +22,7 @@ import (
 
 	"github.com/markusmobius/go-domdistiller/verifrt"
 	"verif/harness/eng"
+	"verif/harness/ora"
 	_ "verif/harness/props"
 )
 
@@ -35,6 +36,7 @@ var (
 	fReplay  = flag.String("replay", "", "replay file")
 	fList    = flag.Bool("list", false, "list properties")
 	fCurFile = flag.String("cur", "", "file receiving the case being executed (internal)")
+	fShow    = flag.Bool("show", false, "with -replay: also print the distiller's result for the case")
 )
 
 func root() string {
@@ -122,6 +124,17 @@ func replay(path string) int {
 		return 2
 	}
 	quiet()
+	if *fShow {
+		_, res, err, pi := ora.Run(r.Case)
+		fmt.Printf("HTML in: %s\nURL: %s algo=%d\n", r.Case.HTML, r.Case.URL, r.Case.Algo)
+		if pi != nil {
+			fmt.Printf("PANIC: %s\n%s\n", pi.Value, pi.Stack)
+		} else if err != nil {
+			fmt.Println("ERR:", err)
+		} else {
+			fmt.Printf("Title: %q\nText: %q\nHTML out: %s\nImages: %v\nWordCount: %d\nPagination: %+v\nMarkup: %+v\n", res.Title, res.Text, ora.Render(res.Node), res.ContentImages, res.WordCount, res.PaginationInfo, res.MarkupInfo)
+		}
+	}
 	o := eng.SafeCheck(p, r.Case)
 	fmt.Printf("replay %s: instrumented=%v steps=%d\n", path, verifrt.Instrumented, verifrt.Steps)
 	if o.Skipped != "" {
